@@ -20,7 +20,7 @@
      "keyrev" sorted(l, cmp=fn(a, b) compare(b, a), key=fn(x) x[0])
      "numkey" sorted(l, key=fn(x) [type(x), x])   elements 1, 1.0, 2, 0.5
      "num3"   sorted(l, cmp=fn(a, b) 3 * compare(a, b))      a cmp may answer any
-     "numsub" sorted(l, cmp=fn(a, b) a - b)                  negative / positive number
+     "numsub" sorted(l, cmp=fn(a, b) int(2*a) - int(2*b))    negative / positive int
 
    and the scan of `min` / `max` over a list (modules/core.ckl):
 
@@ -59,7 +59,8 @@ KeyOf(m, x)  == IF m \in {"key", "keyrev", "minkey", "maxkey"} THEN x.items[1]
                 ELSE IF m = "numkey" THEN VList(<<TypeStr(x), x>>) ELSE x
 \* cmp(a, b) as called by the loop; the default is `compare`.  The loop asks only
 \* whether the answer is negative: 3 * compare(a, b) and a - b (whose sign is
-\* that of compare(a, b)) must sort like compare
+\* that of compare(a, b); the elements are multiples of 1/2 and a cmp must
+\* return an int: int(2 * a) - int(2 * b)) must sort like compare
 Cmp(m, x, y) == IF m = "keyrev" THEN Compare(y, x)
                 ELSE IF m = "num3" THEN 3 * Compare(x, y) ELSE Compare(x, y)
 \* the test of the scan: is x a better candidate than the one held
@@ -168,6 +169,9 @@ Cmpct(m, s) == [k \in 1..Len(s) |->
 ExportFinal == pc = "done" /\ mode \in SortModes =>
                  Emit("SORT", [m |-> mode, inp |-> Cmpct(mode, inp), out |-> Cmpct(mode, res)])
 ExportScan  == pc = "done" /\ mode \in ScanModes =>
-                 Emit("MINMAX", [m |-> mode, inp |-> Cmpct(mode, inp), which |-> j])
+                 Emit("MINMAX", [m |-> mode, inp |-> Cmpct(mode, inp), which |-> j,
+                                 ok |-> [k \in DOMAIN inp |->
+                                           IF mode \in {"min", "minkey"} THEN IsLeastAt(Keys(mode, inp), k)
+                                           ELSE IsGreatestAt(Keys(mode, inp), k)]])
 
 =============================================================================
